@@ -173,6 +173,11 @@ func (u *unmarshaler) Unmarshal(b *bufio.Reader) (WarcRecord, int64, *Validation
 		return record, offset, validation, err
 	}
 
+	// Make sure the block is readable after the rest of the record is consumed
+	if err = record.block.Cache(); err != nil {
+		return record, offset, validation, err
+	}
+
 	// Discard any remaining bytes in block not read by parseBlock
 	_, err = io.Copy(io.Discard, content)
 	if err != nil {
